@@ -158,7 +158,7 @@ Inductive kwkind := KExact | KWild.
 
 (** captures of the first match, or None *)
 Definition kw_captures (kind : kwkind) (pat : str) (t : str) : option (list str) :=
-  let p := unescape_quotes pat in
+  let p := pat in      (* the lexer has unescaped the text already (fix 34af2a5) *)
   match kind with
   | KExact => find_match p [] false t
   | KWild =>
